@@ -519,6 +519,16 @@ def handle (st : DState) (line : String) : String × DState :=
     (match parseGenesis g with
      | some g => (match initGenesis g with | .ok o => "res=ok st=" ++ stateStr o | .err _ => "res=err" | .panic _ => "res=panic", st)
      | none => ("bad-op", st))
+  | ["genload", g] =>
+    (match parseGenesis g with
+     | some g =>
+       (match validateGenesis g with
+        | .ok _ => (match initGenesis g with
+            | .ok o => ("res=ok st=" ++ stateStr o, { st with w := { st.w with orb := o } })
+            | .err _ => ("res=err", st)
+            | .panic _ => ("res=panic", st))
+        | _ => ("res=err", st))
+     | none => ("bad-op", st))
   | "env" :: rest =>
     let upd (e : EnvOp) : String × DState := ("ok", { st with w := { st.w with ext := envStep st.w.ext e } })
     (match rest with
